@@ -115,8 +115,8 @@ def run(repo, verif, mfile, rfile):
         muts = list(reversed(muts))
     for m in muts:
         if Path(rfile).exists():
-            done = {json.loads(l)["id"] for l in Path(rfile).read_text().splitlines() if l.strip()}
-        if m["id"] in done:
+            done = {(x["file"], x["before"], x["after"]) for x in map(json.loads, (l for l in Path(rfile).read_text().splitlines() if l.strip()))}
+        if (m["file"], m["before"].strip(), m["after"].strip()) in done:
             continue
         p = Path(repo) / m["file"]
         orig = p.read_text()
